@@ -65,7 +65,7 @@ if [ -n "$REPLAY" ]; then
   "$BUILD/mon" --prop "$PROP" --replay "$REPLAY" --verif "$VERIF_DIR"
   exit $?
 fi
-export GORACE="halt_on_error=0 log_path=$BUILD/work/race"
+export GORACE="halt_on_error=0 exitcode=0 log_path=$BUILD/work/race"
 "$BUILD/mon" --prop "$PROP" --tier "$TIER" --seed "$SEED" --verif "$VERIF_DIR" --work "$BUILD/work" \
   --workers "${VERIF_WORKERS:-0}" --repo "$REPO"
 exit $?
